@@ -64,7 +64,7 @@ func (c07) Gen(r *rand.Rand, tier string, idx int) *core.Plan {
 		}
 		exp := core.Pick(r, int64(0), 1, 2, 3600, 86400*365)
 		p.Ops = append(p.Ops, core.Op{Kind: "roundtrip", I: []int64{int64(r.IntN(2)), key, int64(r.IntN(2)), size, exp, int64(r.IntN(1000)), int64(r.IntN(4)),
-			int64(core.Pick(r, 0, 0, 1, 2)), int64(core.Pick(r, 0, 0, 1, 1, 2, 3)), int64(r.IntN(1001)), int64(r.IntN(2)), int64(r.IntN(2)), int64(r.IntN(4)), int64(r.IntN(1000))}})
+			int64(core.Pick(r, 0, 0, 1, 2)), int64(core.Pick(r, 0, 0, 1, 1, 2, 3, 4, 5, 6)), int64(r.IntN(1001)), int64(r.IntN(2)), int64(r.IntN(2)), int64(r.IntN(4)), int64(r.IntN(1000))}})
 	}
 	return p
 }
@@ -77,6 +77,9 @@ type faultyReader struct {
 	pos   int
 	chunk int // >0: at most this many bytes per Read
 	errAt int // >=0: fail once this many bytes were delivered
+	// dataWithEOF: the final bytes are handed out together with io.EOF, which the io.Reader contract allows
+	// (gzip, zip entries, some HTTP bodies, iotest.DataErrReader)
+	dataWithEOF bool
 }
 
 var errStream = errors.New("simulated: stream failed")
@@ -101,6 +104,9 @@ func (f *faultyReader) Read(p []byte) (int, error) {
 	}
 	copy(p, f.data[f.pos:f.pos+n])
 	f.pos += n
+	if f.dataWithEOF && f.pos >= len(f.data) && (f.errAt < 0 || f.errAt > len(f.data)) {
+		return n, io.EOF
+	}
 	return n, nil
 }
 
@@ -191,6 +197,10 @@ func (l c07) Exec(env *core.Env) *core.Result {
 				if readerMode == 2 {
 					rd.errAt = int(int64(size) * op.Int(9) / 1000)
 				}
+				if readerMode == 4 || readerMode == 6 {
+					rd.dataWithEOF = true
+					rd.chunk = 1 + int(op.Int(9)*13)%40000
+				}
 				sig, _, err = notation.SignBlob(ctx, sgn, rd, notation.SignBlobOptions{SignerSignOptions: opts, ContentMediaType: mt, UserMetadata: meta})
 				if readerMode == 2 {
 					res.Probe("reader_error_while_signing")
@@ -248,6 +258,10 @@ func (l c07) Exec(env *core.Env) *core.Result {
 				}
 				if readerMode == 3 {
 					rd.errAt = int(int64(size) * op.Int(9) / 1000)
+				}
+				if readerMode == 5 || readerMode == 6 {
+					rd.dataWithEOF = true
+					rd.chunk = 1 + int(op.Int(9)*17)%50000
 				}
 				gotDesc, outcome, err = notation.VerifyBlob(ctx, v, rd, sig, notation.VerifyBlobOptions{
 					BlobVerifierVerifyOptions: notation.BlobVerifierVerifyOptions{SignatureMediaType: format, UserMetadata: meta}, ContentMediaType: mt})
